@@ -11,6 +11,11 @@ package userauth
 // runs, so the allocation oracle is not applied here; what GetInitMsg can
 // allocate is bounded by its 16-bit length field (2 x 64 KiB), inside the
 // 256 KiB allowance by construction.
+//
+// The delivery pattern of a case (wire.Delivery) decides in how many separate
+// writes - each delivered and read before the next is made - the bytes reach
+// the reader, and whether the reader only starts after the peer's close was
+// processed (end-of-stream then arrives together with the last bytes).
 
 import (
 	"encoding/binary"
@@ -29,6 +34,7 @@ type c11dUA struct {
 	Len  int        `json:"len"` // user name length of the valid request the mutations start from
 	Seed uint64     `json:"seed"`
 	Muts []wire.Mut `json:"muts"`
+	Dlv  wire.Delivery `json:"dlv"` // zero value: one write, reader and writer concurrent
 }
 
 func (c c11dUA) input() []byte {
@@ -60,7 +66,12 @@ func c11dUARun(t *testing.T) func(c c11dUA, v *vlib.Verdict) {
 		v.NonTrivial = shape != "consistent"
 		var got string
 		returned := false
-		_, pv, ps, problem := vuaOverTube(t, in, common.UserAuthTube, func(tb *tubes.Reliable) { got = GetInitMsg(tb); returned = true })
+		pieces := c.Dlv.Pieces(len(in), 24)
+		v.Labelf("delivery=%s", map[bool]string{true: "one-write", false: "several-writes"}[len(pieces) == 1])
+		if c.Dlv.EOFWithData {
+			v.Label("delivery:read-after-close")
+		}
+		_, pv, ps, problem := vuaOverTubeDlv(t, in, pieces, c.Dlv.EOFWithData, common.UserAuthTube, func(tb *tubes.Reliable) { got = GetInitMsg(tb); returned = true })
 		if pv != "" {
 			v.Failf(vlib.PanicSig(pv, ps), "panic: %s", pv)
 			return
@@ -81,7 +92,7 @@ func c11dUARun(t *testing.T) func(c c11dUA, v *vlib.Verdict) {
 
 func TestVerifC11DecGetInitMsg(t *testing.T) {
 	vlib.Drive(t, vlib.Spec[c11dUA]{ID: "C11", Quick: 1200, Run: c11dUARun(t), Gen: func(t *rapid.T) c11dUA {
-		c := c11dUA{Raw: -1, Seed: rapid.Uint64().Draw(t, "seed")}
+		c := c11dUA{Raw: -1, Seed: rapid.Uint64().Draw(t, "seed"), Dlv: wire.DrawDelivery(t)}
 		if rapid.IntRange(0, 2).Draw(t, "raw") == 0 {
 			c.Raw = rapid.SampledFrom([]int{0, 1, 2, 3, 4, 10, 300}).Draw(t, "rawlen")
 			return c
